@@ -796,7 +796,7 @@ DROPPED = ["error-message formatting (str.format) is an uninterpreted string", "
 EXPLANATION = "Whole-function symbolic execution of get_indexed_symbol / register_indexed_symbol for all integer subscripts, slice bounds and dimensions."
 MANIFEST = {
     "category": "proof",
-    "text": "The real get_indexed_symbol and ForLoop.register_indexed_symbol are executed symbolically for every integer subscript, slice bound, step (positive, negative or zero) and dimension (no window): a normal return implies the subscript lies in 1..n and the key handed to CasADi selects exactly the Modelica elements under Python/CasADi slice semantics; subscripts on scalars and surplus subscripts raise. A bounded replay through generate() on real models runs beside it.",
+    "text": "The real get_indexed_symbol and ForLoop.register_indexed_symbol are executed symbolically for every integer subscript, slice bound, step (positive, negative or zero) and dimension (no window): a normal return implies the subscript lies in 1..n and the key handed to CasADi selects exactly the Modelica elements under Python/CasADi slice semantics; subscripts on scalars and surplus subscripts raise. A bounded replay through generate() on real models runs beside it. Generator.exitIfExpression asks get_mx for every condition and every branch, so subscripts in branches that cannot be taken are checked too.",
     "note": "Assumed: casadi.MX.__getitem__ contract (sampled in the replay), get_integer's meaning, <= 2 array dimensions; partial index lists on component arrays are outside this check.",
     "technique": "contract-based deductive verification: whole-function symbolic execution of the real source with symbolic integers, VCs discharged by z3/cvc5",
 }
